@@ -11,3 +11,4 @@ import PolyVerif.Props.C06
 import PolyVerif.Props.C07
 import PolyVerif.Props.C15
 import PolyVerif.Props.C14
+import PolyVerif.Props.C18
